@@ -155,6 +155,14 @@ func execLine(line string) (out string) {
 // ---------------------------------------------------------------- dec / enc / reenc
 
 func opDec(kind string, data []byte) string {
+	out := opDecInner(kind, data)
+	if strings.HasPrefix(out, "ok") && acceptedWithTaggedLabel(kind, data) {
+		out += " TAGGED-LABEL"
+	}
+	return out
+}
+
+func opDecInner(kind string, data []byte) string {
 	switch kind {
 	case "s1":
 		var m cose.Sign1Message
